@@ -138,6 +138,7 @@ type File struct {
 	Per    []int   // objects per block (0 for damaged blocks)
 	FirstID []int64 // id of the first object of block k
 	Hdr    string
+	HdrLen int64 // length of the header block (0 if none)
 }
 
 // Build renders c. Object <<k, j>> gets id FirstID[k-1]+j-1; ids increase through the file.
@@ -148,8 +149,10 @@ func Build(c Cfg, variant int) File {
 	switch c.Hdr {
 	case "ok":
 		out = append(out, HeaderBlock("")...)
+		f.HdrLen = int64(len(out))
 	case "feature":
 		out = append(out, HeaderBlock("VerifUnsupportedFeature")...)
+		f.HdrLen = int64(len(out))
 	case "trunc":
 		h := HeaderBlock("")
 		out = append(out, h[:len(h)/2]...)
@@ -189,6 +192,42 @@ func Build(c Cfg, variant int) File {
 	}
 	f.Data = out
 	return f
+}
+
+// CutCfg describes the file obtained by cutting f (built from c) at byte offset cut: the complete blocks
+// before the cut, whether the cut is on a block boundary, and what is left of the header.
+func (f File) CutCfg(c Cfg, cut int64) Cfg {
+	out := Cfg{Endkind: "eof", Hdr: c.Hdr}
+	if c.Hdr != "none" {
+		switch {
+		case cut == 0:
+			out.Hdr = "empty"
+			return out
+		case cut < f.HdrLen:
+			out.Hdr = "trunc"
+			return out
+		}
+	}
+	pos := f.HdrLen
+	for k := range c.Blocks {
+		if f.Ends[k] <= cut {
+			out.Blocks = append(out.Blocks, c.Blocks[k])
+			pos = f.Ends[k]
+		}
+	}
+	if cut > pos {
+		out.Endkind = "trunc"
+	}
+	if c.Hdr == "none" && len(out.Blocks) == 0 {
+		// nothing complete: the first block is read by Start like a header
+		if cut == 0 {
+			out.Hdr = "empty"
+		} else {
+			out.Hdr = "trunc"
+		}
+		out.Endkind = "eof"
+	}
+	return out
 }
 
 // Blk maps a concrete byte offset to the data block index starting there (0 if none).
